@@ -46,7 +46,8 @@ impl Scenario for Batch {
             }
             let present: Vec<&str> = (0..5).filter(|i| mask & (1 << i) != 0).map(|i| SLOTS[i]).collect();
             let kinds_k: Vec<&str> = if present.contains(&"K") { vec!["K:alloc", "K:blocked", "K:close"] } else { vec![""] };
-            let kinds_a1: Vec<Vec<&str>> = if present.contains(&"A1") { vec![vec!["A1:publish"], vec!["A1:call"], vec!["A1:publish", "A1:call"]] } else { vec![vec![]] };
+            // (A1:chclose: the client closes channel 1 itself - with SCh in the batch the two closes cross)
+            let kinds_a1: Vec<Vec<&str>> = if present.contains(&"A1") { vec![vec!["A1:publish"], vec!["A1:call"], vec!["A1:publish", "A1:call"], vec!["A1:chclose"]] } else { vec![vec![]] };
             for kk in &kinds_k {
                 for ka in &kinds_a1 {
                     let mut items: Vec<String> = Vec::new();
@@ -122,6 +123,9 @@ impl Scenario for Batch {
                 let (go_k_tx, go_k) = crossbeam_channel::bounded::<String>(1);
                 let (go_a1_tx, go_a1) = crossbeam_channel::bounded::<String>(2);
                 let (go_a2_tx, go_a2) = crossbeam_channel::bounded::<String>(1);
+                // the actors report when their setup (a consumer each) is done
+                let (ready_tx, ready) = crossbeam_channel::bounded::<()>(2);
+                let (ready1, ready2) = (ready_tx.clone(), ready_tx);
                 let k = ctx.spawn("K", move |ctx| {
                     let mut conn = conn;
                     let op = ctx.recv("go", &go_k).unwrap_or_default();
@@ -155,23 +159,31 @@ impl Scenario for Batch {
                     }
                 });
                 let a1 = ctx.spawn("A1", move |ctx| {
-                    let cons = ch1.basic_consume("q1", amiquip::ConsumerOptions::default());
+                    let mut ch1 = Some(ch1);
+                    let cons = ch1.as_ref().unwrap().basic_consume("q1", amiquip::ConsumerOptions::default());
                     let cons_rx = cons.as_ref().ok().map(|c| c.receiver().clone());
                     std::mem::forget(cons);
+                    let _ = ready1.send(());
                     while let Ok(op) = ctx.recv("go", &go_a1) {
                         if op.contains("publish") {
-                            let r = ch1.basic_publish("", Publish::new(b"abc", "k"));
+                            let r = ch1.as_ref().unwrap().basic_publish("", Publish::new(b"abc", "k"));
                             ctx.log(format!("publish -> {}", res(&r)));
                         }
                         if op.contains("call") {
-                            let r = ch1.queue_purge("q");
+                            let r = ch1.as_ref().unwrap().queue_purge("q");
                             ctx.log(format!("call -> {:?}", r.map_err(|e| err_name(&e))));
                         }
+                        if op.contains("chclose") {
+                            let r = ch1.take().unwrap().close();
+                            ctx.log(format!("chclose -> {:?}", r.map_err(|e| err_name(&e))));
+                        }
                     }
-                    let r = ch1.qos(0, 1, false);
-                    ctx.log(format!("late -> {}", res(&r)));
-                    let r = ch1.close();
-                    ctx.log(format!("chclose -> {}", res(&r)));
+                    if let Some(ch1) = ch1 {
+                        let r = ch1.qos(0, 1, false);
+                        ctx.log(format!("late -> {}", res(&r)));
+                        let r = ch1.close();
+                        ctx.log(format!("chclose -> {}", res(&r)));
+                    }
                     if let Some(rx) = &cons_rx {
                         ctx.log(format!("consumer saw {:?}", rx.try_iter().map(|m| consumer_msg_name(&m)).collect::<Vec<_>>()));
                     }
@@ -180,6 +192,7 @@ impl Scenario for Batch {
                     let cons = ch2.basic_consume("q2", amiquip::ConsumerOptions::default());
                     let cons_rx = cons.as_ref().ok().map(|c| c.receiver().clone());
                     std::mem::forget(cons);
+                    let _ = ready2.send(());
                     let op = ctx.recv("go", &go_a2).unwrap_or_default();
                     if op == "A2" {
                         let r = ch2.queue_purge("q");
@@ -195,6 +208,8 @@ impl Scenario for Batch {
                     }
                 });
                 // ---- the batch
+                let _ = ctx.recv("ready", &ready);
+                let _ = ctx.recv("ready", &ready);
                 ctx.wait_io_quiet();
                 ctx.hold_io(true);
                 for ev in &events {
